@@ -520,6 +520,54 @@ def gen_op(rng, m, b, env, malformed=0.12):
     return {"kind": "read", "view": v}
 
 
+# ------------------------------------------------------------------------------------------ liquidation ties
+def capped_tie(rng, bonus: D, tries=6000):
+    """a one-collateral / one-debt portfolio at an exact liquidation tie: the collateral is worth the debt x (1 + bonus) up to the
+    last of 35 digits, so whether the seizure is capped by the balance, and the repayment "scaled down accordingly", are decided by
+    the rounding of `price_d * debt / price_c * (1 + bonus)` against `price_c * balance / (price_d * (1 + bonus))`.
+    Returns (price_d, price_c, debt_amount, collateral_amount, kind): kind == "over" when `_do_liquidate`'s scaled-down repayment
+    (computed the way the code computes it) comes out ABOVE the debt although the seizure is capped — the inputs of
+    DemeterError("variable_delt < actual_debt_to_liquidate"); otherwise "near" (a tie without that inversion).
+    Uses the process-wide Decimal context (prec 35, set by `import demeter`) like the code."""
+    import demeter  # noqa: F401  (sets getcontext().prec = 35)
+    near = None
+    one_b = 1 + D(bonus)
+    for _ in range(tries):
+        pd_ = log_uniform(rng, 0, 1, rng.choice((1, 3, 6)))            # debt price >= 1: the value to cover is not below the debt
+        pc = log_uniform(rng, 0, 4, rng.choice((3, 6, 12)))
+        var = log_uniform(rng, 0, 5, rng.choice((5, 12, 35)))
+        ex = Fraction(var) * Fraction(pd_) * Fraction(one_b) / Fraction(pc)
+        approx = D(ex.numerator) / D(ex.denominator)
+        for k in (-2, -1, 0, 1):
+            ub = approx + D(k).scaleb(approx.adjusted() - 34)
+            if ub <= 0:
+                continue
+            maxc = pd_ * var / pc * one_b
+            if maxc > ub:
+                if (pc * ub) / (pd_ * one_b) > var:
+                    return pd_, pc, var, ub, "over"
+                near = (pd_, pc, var, ub, "near")
+    return near
+
+
+def tie_market(rng):
+    """a real market holding the `capped_tie` portfolio (one collateral, one debt, indices 1, LT x (1 + bonus) < 0.95 so that the
+    close factor is 100 %): returns (env, market, broker, actions, kind)"""
+    env = gen_env(rng, ntok=2, exact=True)
+    ct, dt = env["tokens"]
+    bonus = D(rng.choice(["0.05", "0.075", "0.1", "0.045", "0.125"]))
+    env["risk"][ct] = {"canColl": True, "ltv": D("0.7"), "lt": D(rng.choice(["0.75", "0.8", "0.825"])), "bonus": bonus, "canBorrow": True}
+    pd_, pc, var, ub, kind = capped_tie(rng, bonus)
+    env["price"][ct], env["price"][dt] = pc, pd_
+    env["status"][ct]["liqIdx"] = D(1)
+    env["status"][dt]["varIdx"] = D(1)
+    m, b, actions = new_market(env, [[ct, "3"], [dt, "5"]])
+    from demeter.aave import SupplyInfo, BorrowInfo
+    m._supplies[token(ct)] = SupplyInfo(ub, True, D(1))
+    m._borrows[token(dt)] = BorrowInfo(var, D(1))
+    return env, m, b, actions, kind
+
+
 def arg_class(op):
     a = op.get("amount", "-")
     if a is None:
